@@ -126,3 +126,16 @@ pub fn near_size(rng: &mut SplitMix64, xs: &[u64], cap: u64) -> Option<u64> {
     let v = match rng.below(8) { 0 => s.saturating_sub(1), 1 => s, 2 => s + 1, 3 => 2 * s + 1, 4 => s + s / 2 + 3, 5 => 4 * s + 1, 6 => 8 * s + 3, _ => s };
     Some(v.clamp(1, cap))
 }
+
+/// two distinct u64 items whose FnvHasher hashes agree on the bits selected by `mask` (deterministic birthday search)
+pub fn fnv_colliding_pair(mask: u64, limit: u64) -> Option<(u64, u64)> {
+    use std::hash::{BuildHasher, BuildHasherDefault};
+    let bh = BuildHasherDefault::<fnv::FnvHasher>::default();
+    let mut seen: std::collections::HashMap<u64, u64> = std::collections::HashMap::new();
+    for x in 0..limit {
+        let h = bh.hash_one(&x) & mask;
+        if let Some(y) = seen.get(&h) { return Some((*y, x)); }
+        seen.insert(h, x);
+    }
+    None
+}
